@@ -59,6 +59,7 @@ def run(check, prog):
     rotation(check, prog, canon)
     table(check, prog)
     compositions(check, prog, canon)
+    scalar_height(check, prog)
     ranges(check, prog)
     composites(check, prog, canon)
     setterless(check, prog)
@@ -244,6 +245,61 @@ def conv(prog, name, arg):
         return list(v[2][0][1])
     raise AnalysisError('%s does not return np.array([a, b, c]): %s' % (
         name, show(v)[:120]))
+
+
+def scalar_height(check, prog):
+    """M8: a scalar z given with arrays of the two other coordinates is repeated to
+    their length *as it is*: the repeated array takes its element type from z (or
+    from a floating-point prototype), not from a coordinate array that may hold
+    integers (pixel indices) -- `np.full_like(x, z)` truncates z = 2.5 to 2."""
+    FLOATY = ('numpy.sqrt', 'numpy.cos', 'numpy.sin', 'numpy.arctan2', 'numpy.hypot')
+    for name in ('transform_cartesian_to_cylindrical',
+                 'transform_cylindrical_to_cartesian'):
+        q = MATH + name
+        fd = prog.func(q)
+        loc = prog.loc(q, fd)
+
+        def decide(t):
+            if t[0] == 'cmp' and t[1] == '==' and t[2][0] == 'call' and \
+                    t[2][1] == 'numpy.size':
+                return True
+            return None
+        it = Interp(prog, max_depth=1, decide=decide)
+        a, b, zz = sym('c0'), sym('c1'), sym('z')
+        res = it.analyze(q, args={fd.args.args[0].arg: intern(('list', (a, b, zz)))})
+        v = res.ret
+        ok = v[0] == 'call' and v[1] == 'numpy.array' and v[2] and \
+            v[2][0][0] == 'list' and len(v[2][0][1]) == 3
+        detail = 'returns %s' % show(v)[:120]
+        if ok:
+            zc = v[2][0][1][2]
+            detail = 'the height component is %s' % show(zc)[:120]
+
+            def floaty(t):
+                return any(x[0] == 'call' and x[1] in FLOATY for x in subterms(t)) or \
+                    any(x[0] == 'bin' and x[1] == '/' for x in subterms(t))
+            if zc[0] == 'call' and zc[1] == 'numpy.full' and len(zc[2]) >= 2:
+                ok = zc[2][1] == zz and kw(zc, 'dtype') is None or \
+                    (zc[2][1] == zz and 'float' in show(kw(zc, 'dtype')))
+            elif zc[0] == 'call' and zc[1] == 'numpy.full_like' and len(zc[2]) >= 2:
+                dt = kw(zc, 'dtype')
+                ok = zc[2][1] == zz and (
+                    (dt is not None and 'float' in show(dt)) or
+                    (dt is None and floaty(zc[2][0])))
+                if not ok:
+                    detail += ': full_like takes the element type of %s, an input ' \
+                        'array that may hold integers' % show(zc[2][0])[:40]
+            elif zc[0] == 'call' and zc[1] == 'numpy.broadcast_to' and zc[2]:
+                ok = zc[2][0] == zz
+            elif zc[0] == 'bin' and zc[1] == '*':
+                ok = zz in (zc[2], zc[3]) and any(
+                    x[0] == 'call' and x[1] in ('numpy.ones', 'numpy.ones_like')
+                    for x in (zc[2], zc[3]))
+            else:
+                ok = False
+        check.require(ok, 'M8-scalar-height', name,
+                      'a scalar z is repeated unchanged to the length of the other two '
+                      'coordinates', loc, fail_detail=detail)
 
 
 def compositions(check, prog, canon):
